@@ -523,6 +523,41 @@ func c14RunScenario(rc *runCtx, r *rand.Rand, cl *c14Cluster, pl c14Plan, t *c14
 		}
 	}
 	raws = nil
+	// In one scenario out of three some records that have to move are ALREADY on their new owner as well (an equal
+	// copy): the state a sender leaves behind when it dies after the destination confirmed the records and before
+	// it deleted its own. The next synchronisation has to complete the move (send again, delete locally).
+	if r.IntN(3) == 0 {
+		for _, i := range all {
+			recs, err := c14ObserveRecs(cl.roots[i])
+			if err != nil {
+				return res, err
+			}
+			for _, kv := range recs {
+				j := newOwner(strings.SplitN(string(kv[0]), "/", 2)[0])
+				if j == i || r.IntN(2) == 0 {
+					continue
+				}
+				if err := os.MkdirAll(cl.roots[j], 0755); err != nil {
+					return res, err
+				}
+				db, err := diskstore.Open(filepath.Join(cl.roots[j], "nodedb.bbolt"))
+				if err != nil {
+					return res, err
+				}
+				err = db.Write(func(bm diskstore.BucketManager) error {
+					b, err := bm.Get(cluster.USERCOLSBUCKETKEY)
+					if err != nil {
+						return err
+					}
+					return b.Put(kv[0], kv[1])
+				})
+				db.Close()
+				if err != nil {
+					return res, err
+				}
+			}
+		}
+	}
 	// the initial placement, as found on disk
 	init0, err2 := cl.observe(all, true)
 	if err = err2; err != nil {
